@@ -220,6 +220,21 @@ def gen_read(rng, cfg, a):
     k = rng.choice([0, 1, 1, 1, 2, 2, 3])
     junk = gens.rand_seq(rng, rng.randint(0, 12))
     mode = rng.random()
+    if (ty == "anywhere" or cfg.get("force_anywhere")) and a.indels and rng.random() < 0.3:
+        # a read as long as the adapter or up to max_errors - 1 longer, made of an inner stretch of the adapter plus insertions:
+        # it can only be placed inside the adapter, and no k-mer has to survive (the short-read pass must let it through; S190)
+        e = int(m * a.max_error_rate)
+        if e >= 1:
+            nins = rng.randint(1, e)
+            plen = rng.randint(m, m + e - 1) - nins
+            if 2 <= plen <= m:
+                i = rng.randint(0, m - plen)
+                piece = list(conc[i:i + plen])
+                step = max(1, plen // (nins + 1))
+                for t in range(nins):
+                    pos = min(len(piece) - 1, max(1, (t + 1) * step + t + rng.randint(-1, 1)))
+                    piece.insert(pos, rng.choice("ACGT"))
+                return "".join(piece)
     if ty == "anywhere" or (cfg.get("force_anywhere") and mode < 0.5):
         if mode < 0.6 and m >= 2:     # read strictly inside the adapter
             i = rng.randint(0, m - 1)
